@@ -1,208 +1,327 @@
 /-
 Fuel totality of the parser model: with the fuel `parseFuel toks = 6·|toks| + 10` that `parseToks` passes, no
 function of the model runs out of fuel — every answer of the model is a real answer (a tree or a rejection).
-Together with `parseToks_no_panic`: `parseToks` is total.
+Together with `parseToks_no_panic`: `parseToks` is total.  (This file is written by a generator script: one
+lemma per function of the model and per property, each closed by case splitting and `grind`.)
 -/
 import Rooc.Proofs.NoPanic
 namespace Rooc.Syntax.Proofs
 open Rooc Rooc.Syntax
 
 theorem optUnary_len (toks : List Tok) : (optUnary toks).2.length ≤ toks.length := by
-  cases toks with
-  | nil => simp [optUnary]
-  | cons t r =>
-    simp only [optUnary]
-    cases unRule t <;> simp
-
-theorem optVariable_len (toks : List Tok) : (optVariable toks).2.length ≤ toks.length := by
-  unfold optVariable
+  unfold optUnary
   split
-  · split <;> simp
   · simp
+  · rename_i t r _
+    cases unRule t <;> simp
+  · simp
+
+theorem skipNl_len (toks : List Tok) : (skipNl toks).length ≤ toks.length := by
+  induction toks with
+  | nil => simp [skipNl]
+  | cons t r ih =>
+    cases t <;> simp [skipNl]
+    omega
 
 theorem wordLeaf_len {w : String} {r rest : List Tok} {t : PExp} (h : wordLeaf w r = .ok (t, rest)) : rest.length ≤ r.length := by
   unfold wordLeaf at h
   repeat' split at h
   all_goals first | (cases h; done) | (injection h with h; injection h with _ h; subst h; simp)
 
-/-- every successful step consumes: strictly for an expression / leaf / argument list, weakly for the repetitions -/
-theorem consumes : ∀ f : Nat,
+theorem fnNameTail_len (toks : List Tok) (acc : String) : (fnNameTail toks acc).2.length ≤ toks.length := by
+  fun_induction fnNameTail toks acc <;> simp <;> omega
+
+theorem tupleNames_len (toks : List Tok) (b : Bool) (acc ns : List String) (rest : List Tok)
+    (h : tupleNames toks b acc = some (ns, rest)) : rest.length < toks.length := by
+  fun_induction tupleNames toks b acc <;> simp_all <;> omega
+
+theorem arrayEntries_len (f : Nat) (toks : List Tok) (acc es : List ArrEntry) (rest : List Tok)
+    (h : arrayEntries f toks acc = some (es, rest)) : rest.length < toks.length := by
+  induction f generalizing toks acc es rest with
+  | zero => simp [arrayEntries] at h
+  | succ f ih =>
+    simp only [arrayEntries] at h
+    have := skipNl_len
+    repeat' split at h
+    all_goals first | (cases h; done) | skip
+    all_goals grind
+
+theorem arrayLeaf_len {r rest : List Tok} {t : PExp} (h : arrayLeaf r = .ok (t, rest)) : rest.length < r.length := by
+  simp only [arrayLeaf] at h
+  have := skipNl_len
+  have := arrayEntries_len
+  repeat' split at h
+  all_goals first | (cases h; done) | skip
+  all_goals grind
+
+/-- every successful step consumes: strictly for an expression / leaf / list, weakly for the repetitions -/
+def ConsumesAt (f : Nat) : Prop :=
     (∀ toks t rest, parseExp f toks = .ok (t, rest) → rest.length < toks.length)
     ∧ (∀ toks items rest, collect f toks = .ok (items, rest) → rest.length < toks.length)
     ∧ (∀ toks acc items rest, collectLoop f toks acc = .ok (items, rest) → rest.length ≤ toks.length)
     ∧ (∀ toks t rest, leaf f toks = .ok (t, rest) → rest.length < toks.length)
+    ∧ (∀ w toks t rest, wordRest f w toks = .ok (t, rest) → rest.length ≤ toks.length)
+    ∧ (∀ n toks t rest, scopedFn f n toks = .ok (t, rest) → rest.length < toks.length)
+    ∧ (∀ toks vs its p rest, iterList f toks vs its = .ok (p, rest) → rest.length < toks.length)
+    ∧ (∀ toks p rest, iterDecl f toks = .ok (p, rest) → rest.length < toks.length)
+    ∧ (∀ toks t rest, iterator f toks = .ok (t, rest) → rest.length < toks.length)
+    ∧ (∀ toks acc as rest, expList f toks acc = .ok (as, rest) → rest.length < toks.length)
+    ∧ (∀ toks acc as rest, accessLoop f toks acc = .ok (as, rest) → rest.length ≤ toks.length)
+    ∧ (∀ toks acc as rest, indexLoop f toks acc = .ok (as, rest) → rest.length ≤ toks.length)
     ∧ (∀ toks as rest, args f toks = .ok (as, rest) → rest.length < toks.length)
     ∧ (∀ toks acc as rest, argsTail f toks acc = .ok (as, rest) → rest.length < toks.length)
     ∧ (∀ toks acc as rest, atoms f toks acc = .ok (as, rest) → rest.length ≤ toks.length
         ∧ (acc.length < as.length → rest.length < toks.length) ∧ acc.length ≤ as.length)
-    ∧ (∀ toks t rest, imulOrSingle f toks = .ok (t, rest) → rest.length < toks.length) := by
+    ∧ (∀ toks t rest, optVariable f toks = .ok (t, rest) → rest.length ≤ toks.length)
+    ∧ (∀ toks t rest, imulOrSingle f toks = .ok (t, rest) → rest.length < toks.length)
+
+theorem cons_parseExp (f : Nat) (ih : ConsumesAt f) : ∀ toks t rest, parseExp (f+1) toks = .ok (t, rest) → rest.length < toks.length := by
+  obtain ⟨cPE, cC, cCL, cL, cWR, cS, cIL, cID, cIt, cEL, cAL, cIx, cA, cAT, cAt, cOV, cI⟩ := ih
+  have hSk := skipNl_len
+  have hOU := optUnary_len
+  have hFN := fnNameTail_len
+  have hTN := tupleNames_len
+  have hWLl := @wordLeaf_len
+  have hArl := @arrayLeaf_len
+  intro toks t rest h
+  simp only [parseExp] at h
+  repeat' split at h
+  all_goals first | (cases h; done) | skip
+  all_goals grind
+
+theorem cons_collect (f : Nat) (ih : ConsumesAt f) : ∀ toks items rest, collect (f+1) toks = .ok (items, rest) → rest.length < toks.length := by
+  obtain ⟨cPE, cC, cCL, cL, cWR, cS, cIL, cID, cIt, cEL, cAL, cIx, cA, cAT, cAt, cOV, cI⟩ := ih
+  have hSk := skipNl_len
+  have hOU := optUnary_len
+  have hFN := fnNameTail_len
+  have hTN := tupleNames_len
+  have hWLl := @wordLeaf_len
+  have hArl := @arrayLeaf_len
+  intro toks items rest h
+  simp only [collect] at h
+  repeat' split at h
+  all_goals first | (cases h; done) | skip
+  all_goals grind
+
+theorem cons_collectLoop (f : Nat) (ih : ConsumesAt f) : ∀ toks acc items rest, collectLoop (f+1) toks acc = .ok (items, rest) → rest.length ≤ toks.length := by
+  obtain ⟨cPE, cC, cCL, cL, cWR, cS, cIL, cID, cIt, cEL, cAL, cIx, cA, cAT, cAt, cOV, cI⟩ := ih
+  have hSk := skipNl_len
+  have hOU := optUnary_len
+  have hFN := fnNameTail_len
+  have hTN := tupleNames_len
+  have hWLl := @wordLeaf_len
+  have hArl := @arrayLeaf_len
+  intro toks acc items rest h
+  simp only [collectLoop] at h
+  repeat' split at h
+  all_goals first | (cases h; done) | skip
+  all_goals grind
+
+theorem cons_leaf (f : Nat) (ih : ConsumesAt f) : ∀ toks t rest, leaf (f+1) toks = .ok (t, rest) → rest.length < toks.length := by
+  obtain ⟨cPE, cC, cCL, cL, cWR, cS, cIL, cID, cIt, cEL, cAL, cIx, cA, cAT, cAt, cOV, cI⟩ := ih
+  have hSk := skipNl_len
+  have hOU := optUnary_len
+  have hFN := fnNameTail_len
+  have hTN := tupleNames_len
+  have hWLl := @wordLeaf_len
+  have hArl := @arrayLeaf_len
+  intro toks t rest h
+  simp only [leaf] at h
+  repeat' split at h
+  all_goals first | (cases h; done) | skip
+  all_goals grind
+
+theorem cons_wordRest (f : Nat) (ih : ConsumesAt f) : ∀ w toks t rest, wordRest (f+1) w toks = .ok (t, rest) → rest.length ≤ toks.length := by
+  obtain ⟨cPE, cC, cCL, cL, cWR, cS, cIL, cID, cIt, cEL, cAL, cIx, cA, cAT, cAt, cOV, cI⟩ := ih
+  have hSk := skipNl_len
+  have hOU := optUnary_len
+  have hFN := fnNameTail_len
+  have hTN := tupleNames_len
+  have hWLl := @wordLeaf_len
+  have hArl := @arrayLeaf_len
+  intro w toks t rest h
+  simp only [wordRest] at h
+  repeat' split at h
+  all_goals first | (cases h; done) | skip
+  all_goals grind
+
+theorem cons_scopedFn (f : Nat) (ih : ConsumesAt f) : ∀ n toks t rest, scopedFn (f+1) n toks = .ok (t, rest) → rest.length < toks.length := by
+  obtain ⟨cPE, cC, cCL, cL, cWR, cS, cIL, cID, cIt, cEL, cAL, cIx, cA, cAT, cAt, cOV, cI⟩ := ih
+  have hSk := skipNl_len
+  have hOU := optUnary_len
+  have hFN := fnNameTail_len
+  have hTN := tupleNames_len
+  have hWLl := @wordLeaf_len
+  have hArl := @arrayLeaf_len
+  intro n toks t rest h
+  simp only [scopedFn] at h
+  repeat' split at h
+  all_goals first | (cases h; done) | skip
+  all_goals grind
+
+theorem cons_iterList (f : Nat) (ih : ConsumesAt f) : ∀ toks vs its p rest, iterList (f+1) toks vs its = .ok (p, rest) → rest.length < toks.length := by
+  obtain ⟨cPE, cC, cCL, cL, cWR, cS, cIL, cID, cIt, cEL, cAL, cIx, cA, cAT, cAt, cOV, cI⟩ := ih
+  have hSk := skipNl_len
+  have hOU := optUnary_len
+  have hFN := fnNameTail_len
+  have hTN := tupleNames_len
+  have hWLl := @wordLeaf_len
+  have hArl := @arrayLeaf_len
+  intro toks vs its p rest h
+  simp only [iterList] at h
+  repeat' split at h
+  all_goals first | (cases h; done) | skip
+  all_goals grind
+
+theorem cons_iterDecl (f : Nat) (ih : ConsumesAt f) : ∀ toks p rest, iterDecl (f+1) toks = .ok (p, rest) → rest.length < toks.length := by
+  obtain ⟨cPE, cC, cCL, cL, cWR, cS, cIL, cID, cIt, cEL, cAL, cIx, cA, cAT, cAt, cOV, cI⟩ := ih
+  have hSk := skipNl_len
+  have hOU := optUnary_len
+  have hFN := fnNameTail_len
+  have hTN := tupleNames_len
+  have hWLl := @wordLeaf_len
+  have hArl := @arrayLeaf_len
+  intro toks p rest h
+  simp only [iterDecl] at h
+  repeat' split at h
+  all_goals first | (cases h; done) | skip
+  all_goals grind
+
+theorem cons_iterator (f : Nat) (ih : ConsumesAt f) : ∀ toks t rest, iterator (f+1) toks = .ok (t, rest) → rest.length < toks.length := by
+  obtain ⟨cPE, cC, cCL, cL, cWR, cS, cIL, cID, cIt, cEL, cAL, cIx, cA, cAT, cAt, cOV, cI⟩ := ih
+  have hSk := skipNl_len
+  have hOU := optUnary_len
+  have hFN := fnNameTail_len
+  have hTN := tupleNames_len
+  have hWLl := @wordLeaf_len
+  have hArl := @arrayLeaf_len
+  intro toks t rest h
+  simp only [iterator] at h
+  repeat' split at h
+  all_goals first | (cases h; done) | skip
+  all_goals grind
+
+theorem cons_expList (f : Nat) (ih : ConsumesAt f) : ∀ toks acc as rest, expList (f+1) toks acc = .ok (as, rest) → rest.length < toks.length := by
+  obtain ⟨cPE, cC, cCL, cL, cWR, cS, cIL, cID, cIt, cEL, cAL, cIx, cA, cAT, cAt, cOV, cI⟩ := ih
+  have hSk := skipNl_len
+  have hOU := optUnary_len
+  have hFN := fnNameTail_len
+  have hTN := tupleNames_len
+  have hWLl := @wordLeaf_len
+  have hArl := @arrayLeaf_len
+  intro toks acc as rest h
+  simp only [expList] at h
+  repeat' split at h
+  all_goals first | (cases h; done) | skip
+  all_goals grind
+
+theorem cons_accessLoop (f : Nat) (ih : ConsumesAt f) : ∀ toks acc as rest, accessLoop (f+1) toks acc = .ok (as, rest) → rest.length ≤ toks.length := by
+  obtain ⟨cPE, cC, cCL, cL, cWR, cS, cIL, cID, cIt, cEL, cAL, cIx, cA, cAT, cAt, cOV, cI⟩ := ih
+  have hSk := skipNl_len
+  have hOU := optUnary_len
+  have hFN := fnNameTail_len
+  have hTN := tupleNames_len
+  have hWLl := @wordLeaf_len
+  have hArl := @arrayLeaf_len
+  intro toks acc as rest h
+  simp only [accessLoop] at h
+  repeat' split at h
+  all_goals first | (cases h; done) | skip
+  all_goals grind
+
+theorem cons_indexLoop (f : Nat) (ih : ConsumesAt f) : ∀ toks acc as rest, indexLoop (f+1) toks acc = .ok (as, rest) → rest.length ≤ toks.length := by
+  obtain ⟨cPE, cC, cCL, cL, cWR, cS, cIL, cID, cIt, cEL, cAL, cIx, cA, cAT, cAt, cOV, cI⟩ := ih
+  have hSk := skipNl_len
+  have hOU := optUnary_len
+  have hFN := fnNameTail_len
+  have hTN := tupleNames_len
+  have hWLl := @wordLeaf_len
+  have hArl := @arrayLeaf_len
+  intro toks acc as rest h
+  simp only [indexLoop] at h
+  repeat' split at h
+  all_goals first | (cases h; done) | skip
+  all_goals grind
+
+theorem cons_args (f : Nat) (ih : ConsumesAt f) : ∀ toks as rest, args (f+1) toks = .ok (as, rest) → rest.length < toks.length := by
+  obtain ⟨cPE, cC, cCL, cL, cWR, cS, cIL, cID, cIt, cEL, cAL, cIx, cA, cAT, cAt, cOV, cI⟩ := ih
+  have hSk := skipNl_len
+  have hOU := optUnary_len
+  have hFN := fnNameTail_len
+  have hTN := tupleNames_len
+  have hWLl := @wordLeaf_len
+  have hArl := @arrayLeaf_len
+  intro toks as rest h
+  simp only [args] at h
+  repeat' split at h
+  all_goals first | (cases h; done) | skip
+  all_goals grind
+
+theorem cons_argsTail (f : Nat) (ih : ConsumesAt f) : ∀ toks acc as rest, argsTail (f+1) toks acc = .ok (as, rest) → rest.length < toks.length := by
+  obtain ⟨cPE, cC, cCL, cL, cWR, cS, cIL, cID, cIt, cEL, cAL, cIx, cA, cAT, cAt, cOV, cI⟩ := ih
+  have hSk := skipNl_len
+  have hOU := optUnary_len
+  have hFN := fnNameTail_len
+  have hTN := tupleNames_len
+  have hWLl := @wordLeaf_len
+  have hArl := @arrayLeaf_len
+  intro toks acc as rest h
+  simp only [argsTail] at h
+  repeat' split at h
+  all_goals first | (cases h; done) | skip
+  all_goals grind
+
+theorem cons_atoms (f : Nat) (ih : ConsumesAt f) : ∀ toks acc as rest, atoms (f+1) toks acc = .ok (as, rest) → rest.length ≤ toks.length
+        ∧ (acc.length < as.length → rest.length < toks.length) ∧ acc.length ≤ as.length := by
+  obtain ⟨cPE, cC, cCL, cL, cWR, cS, cIL, cID, cIt, cEL, cAL, cIx, cA, cAT, cAt, cOV, cI⟩ := ih
+  have hSk := skipNl_len
+  have hOU := optUnary_len
+  have hFN := fnNameTail_len
+  have hTN := tupleNames_len
+  have hWLl := @wordLeaf_len
+  have hArl := @arrayLeaf_len
+  intro toks acc as rest h
+  simp only [atoms] at h
+  repeat' split at h
+  all_goals first | (cases h; done) | skip
+  all_goals grind
+
+theorem cons_optVariable (f : Nat) (ih : ConsumesAt f) : ∀ toks t rest, optVariable (f+1) toks = .ok (t, rest) → rest.length ≤ toks.length := by
+  obtain ⟨cPE, cC, cCL, cL, cWR, cS, cIL, cID, cIt, cEL, cAL, cIx, cA, cAT, cAt, cOV, cI⟩ := ih
+  have hSk := skipNl_len
+  have hOU := optUnary_len
+  have hFN := fnNameTail_len
+  have hTN := tupleNames_len
+  have hWLl := @wordLeaf_len
+  have hArl := @arrayLeaf_len
+  intro toks t rest h
+  simp only [optVariable] at h
+  repeat' split at h
+  all_goals first | (cases h; done) | skip
+  all_goals grind
+
+theorem cons_imulOrSingle (f : Nat) (ih : ConsumesAt f) : ∀ toks t rest, imulOrSingle (f+1) toks = .ok (t, rest) → rest.length < toks.length := by
+  obtain ⟨cPE, cC, cCL, cL, cWR, cS, cIL, cID, cIt, cEL, cAL, cIx, cA, cAT, cAt, cOV, cI⟩ := ih
+  have hSk := skipNl_len
+  have hOU := optUnary_len
+  have hFN := fnNameTail_len
+  have hTN := tupleNames_len
+  have hWLl := @wordLeaf_len
+  have hArl := @arrayLeaf_len
+  intro toks t rest h
+  simp only [imulOrSingle] at h
+  repeat' split at h
+  all_goals first | (cases h; done) | skip
+  all_goals grind
+
+theorem consumes : ∀ f : Nat, ConsumesAt f := by
   intro f
   induction f with
   | zero =>
-    refine ⟨?_, ?_, ?_, ?_, ?_, ?_, ?_, ?_⟩ <;> intros <;>
-      simp_all [parseExp, collect, collectLoop, leaf, args, argsTail, atoms, imulOrSingle]
-  | succ f ih =>
-    obtain ⟨hPE, hC, hCL, hL, hA, hAT, hAt, hI⟩ := ih
-    refine ⟨?_, ?_, ?_, ?_, ?_, ?_, ?_, ?_⟩
-    · intro toks t rest h
-      simp only [parseExp] at h
-      cases hc : collect f toks with
-      | error e => simp only [hc] at h; cases h
-      | ok p =>
-        obtain ⟨items, rest'⟩ := p
-        simp only [hc] at h
-        cases hp : prattParse items with
-        | error e => simp only [hp] at h; cases h
-        | ok t' => simp only [hp] at h; injection h with h; injection h with _ h; subst h; exact hC _ _ _ hc
-    · intro toks items rest h
-      simp only [collect] at h
-      cases hl : leaf f (optUnary toks).2 with
-      | error e => simp only [hl] at h; cases h
-      | ok p =>
-        obtain ⟨t, rest'⟩ := p
-        simp only [hl] at h
-        have h1 := hL _ _ _ hl
-        have h2 := hCL _ _ _ _ h
-        have := optUnary_len toks
-        omega
-    · intro toks acc items rest h
-      cases toks with
-      | nil => simp [collectLoop] at h; simp [h.2]
-      | cons t r =>
-        simp only [collectLoop] at h
-        cases hb : binRule t with
-        | none => simp [hb] at h; simp [← h.2]
-        | some rule =>
-          simp only [hb] at h
-          cases hl : leaf f (optUnary r).2 with
-          | error e =>
-            simp only [hl] at h
-            cases e <;> simp at h
-            simp [← h.2]
-          | ok p =>
-            obtain ⟨x, rest'⟩ := p
-            simp only [hl] at h
-            have h1 := hL _ _ _ hl
-            have h2 := hCL _ _ _ _ h
-            have := optUnary_len r
-            simp; omega
-    · intro toks t rest h
-      simp only [leaf] at h
-      split at h
-      · rename_i w r
-        split at h
-        · cases ha : args f r with
-          | ok p =>
-            obtain ⟨as, rest'⟩ := p
-            simp only [ha] at h
-            injection h with h; injection h with _ h; subst h
-            have := hA _ _ _ ha
-            simp; omega
-          | error e =>
-            simp only [ha] at h
-            cases e with
-            | reject => have := wordLeaf_len h; simp at this ⊢; omega
-            | panic => cases h
-            | fuel => cases h
-        · have := wordLeaf_len h; simp at this ⊢; omega
-      · have := wordLeaf_len h; simp; omega
-      · exact hI _ _ _ h
-      · exact hI _ _ _ h
-      · exact hI _ _ _ h
-      · cases h
-    · intro toks as rest h
-      simp only [args] at h
-      cases hp : parseExp f toks with
-      | ok p =>
-        obtain ⟨a, r⟩ := p
-        simp only [hp] at h
-        have h1 := hPE _ _ _ hp
-        have h2 := hAT _ _ _ _ h
-        omega
-      | error e =>
-        simp only [hp] at h
-        cases e with
-        | reject =>
-          simp only at h
-          split at h
-          · injection h with h; injection h with _ h; subst h; simp
-          · cases h
-        | panic => cases h
-        | fuel => cases h
-    · intro toks acc as rest h
-      simp only [argsTail] at h
-      split at h
-      · injection h with h; injection h with _ h; subst h; simp
-      · rename_i r
-        cases hp : parseExp f r with
-        | ok p =>
-          obtain ⟨a, r'⟩ := p
-          simp only [hp] at h
-          have h1 := hPE _ _ _ hp
-          have h2 := hAT _ _ _ _ h
-          simp; omega
-        | error e => simp only [hp] at h; cases h
-      · cases h
-    · intro toks acc as rest h
-      simp only [atoms] at h
-      split at h
-      · rename_i s r
-        cases hi : intLeaf s with
-        | none => simp only [hi] at h; cases h
-        | some t =>
-          simp only [hi] at h
-          have := hAt _ _ _ _ h
-          simp at this ⊢; omega
-      · have := hAt _ _ _ _ h
-        simp at this ⊢; omega
-      · rename_i r
-        cases hp : parseExp f r with
-        | error e => simp only [hp] at h; cases h
-        | ok p =>
-          obtain ⟨t, r'⟩ := p
-          simp only [hp] at h
-          have h1 := hPE _ _ _ hp
-          split at h
-          · rename_i heq
-            injection heq with heq; injection heq with h3 h4; subst h3 h4
-            have := hAt _ _ _ _ h
-            simp at this h1 ⊢; omega
-          · cases h
-          · cases h
-      · injection h with h; injection h with h1 h2; subst h1 h2; simp
-    · intro toks t rest h
-      simp only [imulOrSingle] at h
-      cases ha : atoms f toks [] with
-      | error e => simp only [ha] at h; cases h
-      | ok p =>
-        obtain ⟨as, rest'⟩ := p
-        simp only [ha] at h
-        have hat := hAt _ _ _ _ ha
-        simp only [List.length_nil] at hat
-        cases as with
-        | nil => cases h
-        | cons a as' =>
-          have hlt : rest'.length < toks.length := hat.2.1 (by simp)
-          have hov := optVariable_len rest'
-          cases as' with
-          | nil =>
-            simp only at h
-            split at h
-            · rename_i v rest'' heq
-              injection h with h; injection h with _ h; subst h
-              have : (optVariable rest').2 = rest'' := by rw [heq]
-              rw [← this]; omega
-            · injection h with h; injection h with _ h; subst h; exact hlt
-          | cons b more =>
-            simp only at h
-            split at h
-            · rename_i v rest'' heq
-              injection h with h; injection h with _ h; subst h
-              have : (optVariable rest').2 = rest'' := by rw [heq]
-              rw [← this]; omega
-            · injection h with h; injection h with _ h; subst h; exact hlt
-
-/-! ### the Pratt loop: consumption and fuel -/
+    refine ⟨?_, ?_, ?_, ?_, ?_, ?_, ?_, ?_, ?_, ?_, ?_, ?_, ?_, ?_, ?_, ?_, ?_⟩ <;> intros <;>
+      simp_all [parseExp, collect, collectLoop, leaf, wordRest, scopedFn, iterList, iterDecl, iterator, expList, accessLoop,
+        indexLoop, args, argsTail, atoms, optVariable, imulOrSingle]
+  | succ f ih => exact ⟨cons_parseExp f ih, cons_collect f ih, cons_collectLoop f ih, cons_leaf f ih, cons_wordRest f ih, cons_scopedFn f ih, cons_iterList f ih, cons_iterDecl f ih, cons_iterator f ih, cons_expList f ih, cons_accessLoop f ih, cons_indexLoop f ih, cons_args f ih, cons_argsTail f ih, cons_atoms f ih, cons_optVariable f ih, cons_imulOrSingle f ih⟩
 
 theorem pratt_consumes : ∀ f : Nat,
     (∀ r items t rest, expr f r items = .ok (t, rest) → rest.length < items.length)
@@ -402,146 +521,343 @@ theorem wordLeaf_ne_fuel (w : String) (r : List Tok) : wordLeaf w r ≠ .error .
   repeat' split
   all_goals simp
 
+theorem arrayLeaf_ne_fuel (r : List Tok) : arrayLeaf r ≠ .error .fuel := by
+  intro h
+  simp only [arrayLeaf] at h
+  repeat' split at h
+  all_goals first | (cases h; done) | skip
+
 theorem fuel_of_eq {α : Type} {x : PRes α} {e : PErr} (h : x = .error e) (hx : x ≠ .error .fuel) : e ≠ .fuel := by
   intro he; subst he; exact hx h
 
-theorem no_fuel : ∀ f : Nat,
+/-- with fuel `6·|toks| + offset` no function of the model answers `fuel` -/
+def FuelAt (f : Nat) : Prop :=
     (∀ toks, 6 * toks.length + 10 ≤ f → parseExp f toks ≠ .error .fuel)
     ∧ (∀ toks, 6 * toks.length + 9 ≤ f → collect f toks ≠ .error .fuel)
     ∧ (∀ toks acc, 6 * toks.length + 9 ≤ f → collectLoop f toks acc ≠ .error .fuel)
     ∧ (∀ toks, 6 * toks.length + 8 ≤ f → leaf f toks ≠ .error .fuel)
+    ∧ (∀ w toks, 6 * toks.length + 7 ≤ f → wordRest f w toks ≠ .error .fuel)
+    ∧ (∀ n toks, 6 * toks.length + 8 ≤ f → scopedFn f n toks ≠ .error .fuel)
+    ∧ (∀ toks vs its, 6 * toks.length + 7 ≤ f → iterList f toks vs its ≠ .error .fuel)
+    ∧ (∀ toks, 6 * toks.length + 6 ≤ f → iterDecl f toks ≠ .error .fuel)
+    ∧ (∀ toks, 6 * toks.length + 11 ≤ f → iterator f toks ≠ .error .fuel)
+    ∧ (∀ toks acc, 6 * toks.length + 11 ≤ f → expList f toks acc ≠ .error .fuel)
+    ∧ (∀ toks acc, 6 * toks.length + 6 ≤ f → accessLoop f toks acc ≠ .error .fuel)
+    ∧ (∀ toks acc, 6 * toks.length + 6 ≤ f → indexLoop f toks acc ≠ .error .fuel)
     ∧ (∀ toks, 6 * toks.length + 11 ≤ f → args f toks ≠ .error .fuel)
     ∧ (∀ toks acc, 6 * toks.length + 10 ≤ f → argsTail f toks acc ≠ .error .fuel)
     ∧ (∀ toks acc, 6 * toks.length + 6 ≤ f → atoms f toks acc ≠ .error .fuel)
-    ∧ (∀ toks, 6 * toks.length + 7 ≤ f → imulOrSingle f toks ≠ .error .fuel) := by
+    ∧ (∀ toks, 6 * toks.length + 6 ≤ f → optVariable f toks ≠ .error .fuel)
+    ∧ (∀ toks, 6 * toks.length + 7 ≤ f → imulOrSingle f toks ≠ .error .fuel)
+
+theorem fuel_parseExp (f : Nat) (ih : FuelAt f) : ∀ toks, 6 * toks.length + 10 ≤ (f+1) → parseExp (f+1) toks ≠ .error .fuel := by
+  obtain ⟨hPE, hC, hCL, hL, hWR, hS, hIL, hID, hIt, hEL, hAL, hIx, hA, hAT, hAt, hOV, hI⟩ := ih
+  intro toks hf
+  simp only [parseExp]
+  cases hc : collect f toks with
+  | error e => simp only; intro h; injection h with h; exact fuel_of_eq hc (hC toks (by omega)) h
+  | ok p =>
+    obtain ⟨items, rest⟩ := p
+    simp only
+    have hp := prattParse_no_fuel (collect_shaped f toks items rest hc)
+    cases hpp : prattParse items with
+    | error e => simp only; intro h; injection h with h; subst h; exact hp hpp
+    | ok t => simp
+
+theorem fuel_collect (f : Nat) (ih : FuelAt f) : ∀ toks, 6 * toks.length + 9 ≤ (f+1) → collect (f+1) toks ≠ .error .fuel := by
+  obtain ⟨hPE, hC, hCL, hL, hWR, hS, hIL, hID, hIt, hEL, hAL, hIx, hA, hAT, hAt, hOV, hI⟩ := ih
+  obtain ⟨cPE, cC, cCL, cL, cWR, cS, cIL, cID, cIt, cEL, cAL, cIx, cA, cAT, cAt, cOV, cI⟩ := consumes f
+  have hSk := skipNl_len
+  have hOU := optUnary_len
+  have hFN := fnNameTail_len
+  have hTN := tupleNames_len
+  have hWLl := @wordLeaf_len
+  have hArl := @arrayLeaf_len
+  have hWLf := wordLeaf_ne_fuel
+  have hArf := arrayLeaf_ne_fuel
+  intro toks hf hres
+  simp only [collect] at hres
+  repeat' split at hres
+  all_goals first | (cases hres; done) | skip
+  all_goals grind
+
+theorem fuel_collectLoop (f : Nat) (ih : FuelAt f) : ∀ toks acc, 6 * toks.length + 9 ≤ (f+1) → collectLoop (f+1) toks acc ≠ .error .fuel := by
+  obtain ⟨hPE, hC, hCL, hL, hWR, hS, hIL, hID, hIt, hEL, hAL, hIx, hA, hAT, hAt, hOV, hI⟩ := ih
+  obtain ⟨cPE, cC, cCL, cL, cWR, cS, cIL, cID, cIt, cEL, cAL, cIx, cA, cAT, cAt, cOV, cI⟩ := consumes f
+  have hSk := skipNl_len
+  have hOU := optUnary_len
+  have hFN := fnNameTail_len
+  have hTN := tupleNames_len
+  have hWLl := @wordLeaf_len
+  have hArl := @arrayLeaf_len
+  have hWLf := wordLeaf_ne_fuel
+  have hArf := arrayLeaf_ne_fuel
+  intro toks acc hf hres
+  simp only [collectLoop] at hres
+  repeat' split at hres
+  all_goals first | (cases hres; done) | skip
+  all_goals grind
+
+theorem fuel_leaf (f : Nat) (ih : FuelAt f) : ∀ toks, 6 * toks.length + 8 ≤ (f+1) → leaf (f+1) toks ≠ .error .fuel := by
+  obtain ⟨hPE, hC, hCL, hL, hWR, hS, hIL, hID, hIt, hEL, hAL, hIx, hA, hAT, hAt, hOV, hI⟩ := ih
+  obtain ⟨cPE, cC, cCL, cL, cWR, cS, cIL, cID, cIt, cEL, cAL, cIx, cA, cAT, cAt, cOV, cI⟩ := consumes f
+  have hSk := skipNl_len
+  have hOU := optUnary_len
+  have hFN := fnNameTail_len
+  have hTN := tupleNames_len
+  have hWLl := @wordLeaf_len
+  have hArl := @arrayLeaf_len
+  have hWLf := wordLeaf_ne_fuel
+  have hArf := arrayLeaf_ne_fuel
+  intro toks hf hres
+  simp only [leaf] at hres
+  repeat' split at hres
+  all_goals first | (cases hres; done) | skip
+  all_goals grind
+
+theorem fuel_wordRest (f : Nat) (ih : FuelAt f) : ∀ w toks, 6 * toks.length + 7 ≤ (f+1) → wordRest (f+1) w toks ≠ .error .fuel := by
+  obtain ⟨hPE, hC, hCL, hL, hWR, hS, hIL, hID, hIt, hEL, hAL, hIx, hA, hAT, hAt, hOV, hI⟩ := ih
+  obtain ⟨cPE, cC, cCL, cL, cWR, cS, cIL, cID, cIt, cEL, cAL, cIx, cA, cAT, cAt, cOV, cI⟩ := consumes f
+  have hSk := skipNl_len
+  have hOU := optUnary_len
+  have hFN := fnNameTail_len
+  have hTN := tupleNames_len
+  have hWLl := @wordLeaf_len
+  have hArl := @arrayLeaf_len
+  have hWLf := wordLeaf_ne_fuel
+  have hArf := arrayLeaf_ne_fuel
+  intro w toks hf hres
+  simp only [wordRest] at hres
+  repeat' split at hres
+  all_goals first | (cases hres; done) | skip
+  all_goals grind
+
+theorem fuel_scopedFn (f : Nat) (ih : FuelAt f) : ∀ n toks, 6 * toks.length + 8 ≤ (f+1) → scopedFn (f+1) n toks ≠ .error .fuel := by
+  obtain ⟨hPE, hC, hCL, hL, hWR, hS, hIL, hID, hIt, hEL, hAL, hIx, hA, hAT, hAt, hOV, hI⟩ := ih
+  obtain ⟨cPE, cC, cCL, cL, cWR, cS, cIL, cID, cIt, cEL, cAL, cIx, cA, cAT, cAt, cOV, cI⟩ := consumes f
+  have hSk := skipNl_len
+  have hOU := optUnary_len
+  have hFN := fnNameTail_len
+  have hTN := tupleNames_len
+  have hWLl := @wordLeaf_len
+  have hArl := @arrayLeaf_len
+  have hWLf := wordLeaf_ne_fuel
+  have hArf := arrayLeaf_ne_fuel
+  intro n toks hf hres
+  simp only [scopedFn] at hres
+  repeat' split at hres
+  all_goals first | (cases hres; done) | skip
+  all_goals grind
+
+theorem fuel_iterList (f : Nat) (ih : FuelAt f) : ∀ toks vs its, 6 * toks.length + 7 ≤ (f+1) → iterList (f+1) toks vs its ≠ .error .fuel := by
+  obtain ⟨hPE, hC, hCL, hL, hWR, hS, hIL, hID, hIt, hEL, hAL, hIx, hA, hAT, hAt, hOV, hI⟩ := ih
+  obtain ⟨cPE, cC, cCL, cL, cWR, cS, cIL, cID, cIt, cEL, cAL, cIx, cA, cAT, cAt, cOV, cI⟩ := consumes f
+  have hSk := skipNl_len
+  have hOU := optUnary_len
+  have hFN := fnNameTail_len
+  have hTN := tupleNames_len
+  have hWLl := @wordLeaf_len
+  have hArl := @arrayLeaf_len
+  have hWLf := wordLeaf_ne_fuel
+  have hArf := arrayLeaf_ne_fuel
+  intro toks vs its hf hres
+  simp only [iterList] at hres
+  repeat' split at hres
+  all_goals first | (cases hres; done) | skip
+  all_goals grind
+
+theorem fuel_iterDecl (f : Nat) (ih : FuelAt f) : ∀ toks, 6 * toks.length + 6 ≤ (f+1) → iterDecl (f+1) toks ≠ .error .fuel := by
+  obtain ⟨hPE, hC, hCL, hL, hWR, hS, hIL, hID, hIt, hEL, hAL, hIx, hA, hAT, hAt, hOV, hI⟩ := ih
+  obtain ⟨cPE, cC, cCL, cL, cWR, cS, cIL, cID, cIt, cEL, cAL, cIx, cA, cAT, cAt, cOV, cI⟩ := consumes f
+  have hSk := skipNl_len
+  have hOU := optUnary_len
+  have hFN := fnNameTail_len
+  have hTN := tupleNames_len
+  have hWLl := @wordLeaf_len
+  have hArl := @arrayLeaf_len
+  have hWLf := wordLeaf_ne_fuel
+  have hArf := arrayLeaf_ne_fuel
+  intro toks hf hres
+  simp only [iterDecl] at hres
+  repeat' split at hres
+  all_goals first | (cases hres; done) | skip
+  all_goals grind
+
+theorem fuel_iterator (f : Nat) (ih : FuelAt f) : ∀ toks, 6 * toks.length + 11 ≤ (f+1) → iterator (f+1) toks ≠ .error .fuel := by
+  obtain ⟨hPE, hC, hCL, hL, hWR, hS, hIL, hID, hIt, hEL, hAL, hIx, hA, hAT, hAt, hOV, hI⟩ := ih
+  obtain ⟨cPE, cC, cCL, cL, cWR, cS, cIL, cID, cIt, cEL, cAL, cIx, cA, cAT, cAt, cOV, cI⟩ := consumes f
+  have hSk := skipNl_len
+  have hOU := optUnary_len
+  have hFN := fnNameTail_len
+  have hTN := tupleNames_len
+  have hWLl := @wordLeaf_len
+  have hArl := @arrayLeaf_len
+  have hWLf := wordLeaf_ne_fuel
+  have hArf := arrayLeaf_ne_fuel
+  intro toks hf hres
+  simp only [iterator] at hres
+  repeat' split at hres
+  all_goals first | (cases hres; done) | skip
+  all_goals grind
+
+theorem fuel_expList (f : Nat) (ih : FuelAt f) : ∀ toks acc, 6 * toks.length + 11 ≤ (f+1) → expList (f+1) toks acc ≠ .error .fuel := by
+  obtain ⟨hPE, hC, hCL, hL, hWR, hS, hIL, hID, hIt, hEL, hAL, hIx, hA, hAT, hAt, hOV, hI⟩ := ih
+  obtain ⟨cPE, cC, cCL, cL, cWR, cS, cIL, cID, cIt, cEL, cAL, cIx, cA, cAT, cAt, cOV, cI⟩ := consumes f
+  have hSk := skipNl_len
+  have hOU := optUnary_len
+  have hFN := fnNameTail_len
+  have hTN := tupleNames_len
+  have hWLl := @wordLeaf_len
+  have hArl := @arrayLeaf_len
+  have hWLf := wordLeaf_ne_fuel
+  have hArf := arrayLeaf_ne_fuel
+  intro toks acc hf hres
+  simp only [expList] at hres
+  repeat' split at hres
+  all_goals first | (cases hres; done) | skip
+  all_goals grind
+
+theorem fuel_accessLoop (f : Nat) (ih : FuelAt f) : ∀ toks acc, 6 * toks.length + 6 ≤ (f+1) → accessLoop (f+1) toks acc ≠ .error .fuel := by
+  obtain ⟨hPE, hC, hCL, hL, hWR, hS, hIL, hID, hIt, hEL, hAL, hIx, hA, hAT, hAt, hOV, hI⟩ := ih
+  obtain ⟨cPE, cC, cCL, cL, cWR, cS, cIL, cID, cIt, cEL, cAL, cIx, cA, cAT, cAt, cOV, cI⟩ := consumes f
+  have hSk := skipNl_len
+  have hOU := optUnary_len
+  have hFN := fnNameTail_len
+  have hTN := tupleNames_len
+  have hWLl := @wordLeaf_len
+  have hArl := @arrayLeaf_len
+  have hWLf := wordLeaf_ne_fuel
+  have hArf := arrayLeaf_ne_fuel
+  intro toks acc hf hres
+  simp only [accessLoop] at hres
+  repeat' split at hres
+  all_goals first | (cases hres; done) | skip
+  all_goals grind
+
+theorem fuel_indexLoop (f : Nat) (ih : FuelAt f) : ∀ toks acc, 6 * toks.length + 6 ≤ (f+1) → indexLoop (f+1) toks acc ≠ .error .fuel := by
+  obtain ⟨hPE, hC, hCL, hL, hWR, hS, hIL, hID, hIt, hEL, hAL, hIx, hA, hAT, hAt, hOV, hI⟩ := ih
+  obtain ⟨cPE, cC, cCL, cL, cWR, cS, cIL, cID, cIt, cEL, cAL, cIx, cA, cAT, cAt, cOV, cI⟩ := consumes f
+  have hSk := skipNl_len
+  have hOU := optUnary_len
+  have hFN := fnNameTail_len
+  have hTN := tupleNames_len
+  have hWLl := @wordLeaf_len
+  have hArl := @arrayLeaf_len
+  have hWLf := wordLeaf_ne_fuel
+  have hArf := arrayLeaf_ne_fuel
+  intro toks acc hf hres
+  simp only [indexLoop] at hres
+  repeat' split at hres
+  all_goals first | (cases hres; done) | skip
+  all_goals grind
+
+theorem fuel_args (f : Nat) (ih : FuelAt f) : ∀ toks, 6 * toks.length + 11 ≤ (f+1) → args (f+1) toks ≠ .error .fuel := by
+  obtain ⟨hPE, hC, hCL, hL, hWR, hS, hIL, hID, hIt, hEL, hAL, hIx, hA, hAT, hAt, hOV, hI⟩ := ih
+  obtain ⟨cPE, cC, cCL, cL, cWR, cS, cIL, cID, cIt, cEL, cAL, cIx, cA, cAT, cAt, cOV, cI⟩ := consumes f
+  have hSk := skipNl_len
+  have hOU := optUnary_len
+  have hFN := fnNameTail_len
+  have hTN := tupleNames_len
+  have hWLl := @wordLeaf_len
+  have hArl := @arrayLeaf_len
+  have hWLf := wordLeaf_ne_fuel
+  have hArf := arrayLeaf_ne_fuel
+  intro toks hf hres
+  simp only [args] at hres
+  repeat' split at hres
+  all_goals first | (cases hres; done) | skip
+  all_goals grind
+
+theorem fuel_argsTail (f : Nat) (ih : FuelAt f) : ∀ toks acc, 6 * toks.length + 10 ≤ (f+1) → argsTail (f+1) toks acc ≠ .error .fuel := by
+  obtain ⟨hPE, hC, hCL, hL, hWR, hS, hIL, hID, hIt, hEL, hAL, hIx, hA, hAT, hAt, hOV, hI⟩ := ih
+  obtain ⟨cPE, cC, cCL, cL, cWR, cS, cIL, cID, cIt, cEL, cAL, cIx, cA, cAT, cAt, cOV, cI⟩ := consumes f
+  have hSk := skipNl_len
+  have hOU := optUnary_len
+  have hFN := fnNameTail_len
+  have hTN := tupleNames_len
+  have hWLl := @wordLeaf_len
+  have hArl := @arrayLeaf_len
+  have hWLf := wordLeaf_ne_fuel
+  have hArf := arrayLeaf_ne_fuel
+  intro toks acc hf hres
+  simp only [argsTail] at hres
+  repeat' split at hres
+  all_goals first | (cases hres; done) | skip
+  all_goals grind
+
+theorem fuel_atoms (f : Nat) (ih : FuelAt f) : ∀ toks acc, 6 * toks.length + 6 ≤ (f+1) → atoms (f+1) toks acc ≠ .error .fuel := by
+  obtain ⟨hPE, hC, hCL, hL, hWR, hS, hIL, hID, hIt, hEL, hAL, hIx, hA, hAT, hAt, hOV, hI⟩ := ih
+  obtain ⟨cPE, cC, cCL, cL, cWR, cS, cIL, cID, cIt, cEL, cAL, cIx, cA, cAT, cAt, cOV, cI⟩ := consumes f
+  have hSk := skipNl_len
+  have hOU := optUnary_len
+  have hFN := fnNameTail_len
+  have hTN := tupleNames_len
+  have hWLl := @wordLeaf_len
+  have hArl := @arrayLeaf_len
+  have hWLf := wordLeaf_ne_fuel
+  have hArf := arrayLeaf_ne_fuel
+  intro toks acc hf hres
+  simp only [atoms] at hres
+  repeat' split at hres
+  all_goals first | (cases hres; done) | skip
+  all_goals grind
+
+theorem fuel_optVariable (f : Nat) (ih : FuelAt f) : ∀ toks, 6 * toks.length + 6 ≤ (f+1) → optVariable (f+1) toks ≠ .error .fuel := by
+  obtain ⟨hPE, hC, hCL, hL, hWR, hS, hIL, hID, hIt, hEL, hAL, hIx, hA, hAT, hAt, hOV, hI⟩ := ih
+  obtain ⟨cPE, cC, cCL, cL, cWR, cS, cIL, cID, cIt, cEL, cAL, cIx, cA, cAT, cAt, cOV, cI⟩ := consumes f
+  have hSk := skipNl_len
+  have hOU := optUnary_len
+  have hFN := fnNameTail_len
+  have hTN := tupleNames_len
+  have hWLl := @wordLeaf_len
+  have hArl := @arrayLeaf_len
+  have hWLf := wordLeaf_ne_fuel
+  have hArf := arrayLeaf_ne_fuel
+  intro toks hf hres
+  simp only [optVariable] at hres
+  repeat' split at hres
+  all_goals first | (cases hres; done) | skip
+  all_goals grind
+
+theorem fuel_imulOrSingle (f : Nat) (ih : FuelAt f) : ∀ toks, 6 * toks.length + 7 ≤ (f+1) → imulOrSingle (f+1) toks ≠ .error .fuel := by
+  obtain ⟨hPE, hC, hCL, hL, hWR, hS, hIL, hID, hIt, hEL, hAL, hIx, hA, hAT, hAt, hOV, hI⟩ := ih
+  obtain ⟨cPE, cC, cCL, cL, cWR, cS, cIL, cID, cIt, cEL, cAL, cIx, cA, cAT, cAt, cOV, cI⟩ := consumes f
+  have hSk := skipNl_len
+  have hOU := optUnary_len
+  have hFN := fnNameTail_len
+  have hTN := tupleNames_len
+  have hWLl := @wordLeaf_len
+  have hArl := @arrayLeaf_len
+  have hWLf := wordLeaf_ne_fuel
+  have hArf := arrayLeaf_ne_fuel
+  intro toks hf hres
+  simp only [imulOrSingle] at hres
+  repeat' split at hres
+  all_goals first | (cases hres; done) | skip
+  all_goals grind
+
+theorem no_fuel : ∀ f : Nat, FuelAt f := by
   intro f
   induction f with
-  | zero => refine ⟨?_, ?_, ?_, ?_, ?_, ?_, ?_, ?_⟩ <;> intros <;> omega
-  | succ f ih =>
-    obtain ⟨hPE, hC, hCL, hL, hA, hAT, hAt, hI⟩ := ih
-    obtain ⟨cPE, cC, cCL, cL, cA, cAT, cAt, cI⟩ := consumes f
-    refine ⟨?_, ?_, ?_, ?_, ?_, ?_, ?_, ?_⟩
-    · intro toks hf
-      simp only [parseExp]
-      cases hc : collect f toks with
-      | error e => simp only; intro h; injection h with h; exact fuel_of_eq hc (hC toks (by omega)) h
-      | ok p =>
-        obtain ⟨items, rest⟩ := p
-        simp only
-        have hp := prattParse_no_fuel (collect_shaped f toks items rest hc)
-        cases hpp : prattParse items with
-        | error e => simp only; intro h; injection h with h; subst h; exact hp hpp
-        | ok t => simp
-    · intro toks hf
-      simp only [collect]
-      have hlen := optUnary_len toks
-      cases hl : leaf f (optUnary toks).2 with
-      | error e => simp only; intro h; injection h with h; exact fuel_of_eq hl (hL _ (by omega)) h
-      | ok p =>
-        obtain ⟨t, rest⟩ := p
-        have := cL _ _ _ hl
-        exact hCL _ _ (by omega)
-    · intro toks acc hf
-      cases toks with
-      | nil => simp [collectLoop]
-      | cons t r =>
-        simp only [collectLoop]
-        cases hb : binRule t with
-        | none => simp
-        | some rule =>
-          simp only
-          have hlen := optUnary_len r
-          cases hl : leaf f (optUnary r).2 with
-          | error e =>
-            cases e with
-            | reject => simp
-            | panic => simp
-            | fuel => exact absurd hl (hL _ (by simp at hf; omega))
-          | ok p =>
-            obtain ⟨x, rest⟩ := p
-            have := cL _ _ _ hl
-            exact hCL _ _ (by simp at hf; omega)
-    · intro toks hf
-      simp only [leaf]
-      split
-      · rename_i w r
-        split
-        · cases ha : args f r with
-          | ok p => obtain ⟨as, rest⟩ := p; simp
-          | error e =>
-            cases e with
-            | reject => exact wordLeaf_ne_fuel _ _
-            | panic => simp
-            | fuel => exact absurd ha (hA _ (by simp at hf; omega))
-        · exact wordLeaf_ne_fuel _ _
-      · exact wordLeaf_ne_fuel _ _
-      · exact hI _ (by omega)
-      · exact hI _ (by omega)
-      · exact hI _ (by omega)
-      · simp
-    · intro toks hf
-      simp only [args]
-      cases hp : parseExp f toks with
-      | ok p =>
-        obtain ⟨a, r⟩ := p
-        have := cPE _ _ _ hp
-        exact hAT _ _ (by omega)
-      | error e =>
-        cases e with
-        | reject => simp only; split <;> simp
-        | panic => simp
-        | fuel => exact absurd hp (hPE _ (by omega))
-    · intro toks acc hf
-      simp only [argsTail]
-      split
-      · simp
-      · rename_i r
-        cases hp : parseExp f r with
-        | ok p =>
-          obtain ⟨a, r'⟩ := p
-          have := cPE _ _ _ hp
-          exact hAT _ _ (by simp at hf; omega)
-        | error e => simp only; intro h; injection h with h; exact fuel_of_eq hp (hPE _ (by simp at hf; omega)) h
-      · simp
-    · intro toks acc hf
-      simp only [atoms]
-      split
-      · rename_i s r
-        cases intLeaf s with
-        | none => simp
-        | some t => exact hAt _ _ (by simp at hf; omega)
-      · exact hAt _ _ (by simp at hf; omega)
-      · rename_i r
-        cases hp : parseExp f r with
-        | error e => simp only; intro h; injection h with h; exact fuel_of_eq hp (hPE _ (by simp at hf; omega)) h
-        | ok p =>
-          obtain ⟨t, r'⟩ := p
-          have hlt := cPE _ _ _ hp
-          split
-          · rename_i heq
-            injection heq with heq; injection heq with h3 h4; subst h3 h4
-            exact hAt _ _ (by simp at hf hlt; omega)
-          · simp
-          · rename_i heq; cases heq
-      · simp
-    · intro toks hf
-      simp only [imulOrSingle]
-      cases ha : atoms f toks [] with
-      | error e => simp only; intro h; injection h with h; exact fuel_of_eq ha (hAt _ _ (by omega)) h
-      | ok p =>
-        obtain ⟨as, rest⟩ := p
-        repeat' split
-        all_goals first | (rename_i heq; cases heq; done) | simp
+  | zero => refine ⟨?_, ?_, ?_, ?_, ?_, ?_, ?_, ?_, ?_, ?_, ?_, ?_, ?_, ?_, ?_, ?_, ?_⟩ <;> intros <;> omega
+  | succ f ih => exact ⟨fuel_parseExp f ih, fuel_collect f ih, fuel_collectLoop f ih, fuel_leaf f ih, fuel_wordRest f ih, fuel_scopedFn f ih, fuel_iterList f ih, fuel_iterDecl f ih, fuel_iterator f ih, fuel_expList f ih, fuel_accessLoop f ih, fuel_indexLoop f ih, fuel_args f ih, fuel_argsTail f ih, fuel_atoms f ih, fuel_optVariable f ih, fuel_imulOrSingle f ih⟩
 
 /-- **The fuel of `parseToks` is always enough.** -/
-theorem parseToks_no_fuel (toks : List Tok) : parseToks toks ≠ .error .fuel := by
-  unfold parseToks
+theorem parseToksRaw_no_fuel (toks : List Tok) : parseToksRaw toks ≠ .error .fuel := by
+  unfold parseToksRaw
   have := (no_fuel (parseFuel toks)).1 toks (by simp [parseFuel])
   cases hp : parseExp (parseFuel toks) toks with
   | error e => simp only; intro h; injection h with h; exact fuel_of_eq hp this h
   | ok p =>
     obtain ⟨t, rest⟩ := p
     cases rest <;> simp
+
+theorem parseToks_no_fuel (toks : List Tok) : parseToks toks ≠ .error .fuel := by
+  unfold parseToks
+  have := parseToksRaw_no_fuel toks
+  cases hp : parseToksRaw toks with
+  | error e => simp only; intro h; injection h with h; exact this (by rw [hp, h])
+  | ok t => simp only; split <;> simp
 
 /-- **Totality of the parser model**: every token sequence is answered with a tree or with `reject`. -/
 theorem parseToks_total (toks : List Tok) : (∃ t, parseToks toks = .ok t) ∨ parseToks toks = .error .reject := by
